@@ -41,6 +41,16 @@ def generate():
         {"ant_evm": "crate::shim::ant_evm", "ant_networking": "crate::shim::ant_networking", "ant_protocol": "crate::shim::ant_protocol", "std": "crate::shim::std"},
         append='#[path = "../h_node_quote.rs"]\npub mod harness;\n',
         require=["fn create_quote_for_storecost", "fn verify_quote_for_storecost", "async fn quotes_verification"]))
+    # node-side fetch of an advertised record from its holder, with the network as fall-back (C09)
+    rp, mr = extract_items("ant-node/src/replication.rs", [("fn", "fetch_replication_keys_without_wait")])
+    meta.append(mr)
+    write_if_changed(f"{DST}/replication_items.rs",
+                     "// GENERATED from ant-node/src/replication.rs item -- do not edit\n"
+                     "use crate::{node::Node, Result};\n"
+                     "use crate::shim::ant_networking::{GetRecordCfg, Network};\n"
+                     "use crate::shim::ant_protocol::{messages::{Cmd, Query, QueryResponse, Request, Response}, storage::RecordType, NetworkAddress, PrettyPrintRecordKey};\n"
+                     "use libp2p::{kad::{Quorum, Record, RecordKey}, PeerId};\nuse symrt::env::spawn;\n\n"
+                     "impl Node {\n" + rp + "\n}\n\n#[path = \"../h_replication.rs\"]\npub mod harness;\n")
     # the contract wrapper of evmlib (C03): verify_data_payment over a model PaymentVaultHandler
     v, mv = extract_items("evmlib/src/contract/payment_vault/mod.rs", [("fn", "verify_data_payment")])
     meta.append(mv)
